@@ -1,0 +1,57 @@
+//go:build verif
+
+// Contracts for the deductive checker in /verif (gvc). Comments only.
+
+package converters
+
+//@ property C15
+//@ bv uint64 uint8 uint16
+//@ log invoke.ReadByte
+
+// ---------------------------------------------------------------------------
+// Base-128 big-endian varint. vshape(o, n, x): the n bytes o[0..n) are the encoding of x:
+// byte i carries bits 7(n-1-i)..7(n-1-i)+6 of x, every byte but the last has the continuation bit,
+// and x has no bits above 7n.
+// ---------------------------------------------------------------------------
+//@ pure vshape(o []byte, n int, x uint64) bool = 1 <= n && n <= 10 && x >> uint(7*n) == 0 && \
+//@     forall(i, 0, n, o[i] == byte((x >> uint(7*(n-1-i))) & 0x7f) | ite(i < n-1, byte(0x80), byte(0)))
+
+// dec(o, n): value decoded from the first n bytes (recursive spec function, by its defining equations)
+//@ uninterp dec(o []byte, n int) uint64
+//@ axiom dec_zero: forall_slice(byte, o, dec(o, 0) == 0)
+//@ axiom dec_step: forall_slice(byte, o, forall_t(n, 0, inf, dec(o, n+1), dec(o, n+1) == (dec(o, n) << 7) | uint64(o[n] & 0x7f)))
+
+// two byte sequences that agree on their first n bytes decode to the same value
+//@ lemma dec_frame induct n uses dec_zero, dec_step: forall_slice(byte, o1, forall_slice(byte, o2, implies(forall(k, 0, n, o1[k] == o2[k]), dec(o1, n) == dec(o2, n))))
+
+// downward form of dec's defining equation (unfolds any dec term; used for the fixed-length round trips)
+//@ axiom dec_down: forall_slice(byte, o, forall_t(k, 1, 12, dec(o, k), dec(o, k) == (dec(o, k-1) << 7) | uint64(o[k-1] & 0x7f)))
+// Round trip: what writeVarInt emits (vshape) is decoded by readVarInt (dec) to the same number.
+// One lemma per encoded length (vshape admits exactly the lengths 1..10); each is a pure bit-vector
+// fact after unfolding dec.
+//@ lemma varint_roundtrip_1 uses dec_zero, dec_down: forall_slice(byte, o, forall(uint64, x, 0, inf, forall(n, 1, 11, implies(n == 1 && vshape(o, n, x), dec(o, n) == x))))
+//@ lemma varint_roundtrip_2 uses dec_zero, dec_down: forall_slice(byte, o, forall(uint64, x, 0, inf, forall(n, 1, 11, implies(n == 2 && vshape(o, n, x), dec(o, n) == x))))
+//@ lemma varint_roundtrip_3 uses dec_zero, dec_down: forall_slice(byte, o, forall(uint64, x, 0, inf, forall(n, 1, 11, implies(n == 3 && vshape(o, n, x), dec(o, n) == x))))
+//@ lemma varint_roundtrip_4 uses dec_zero, dec_down: forall_slice(byte, o, forall(uint64, x, 0, inf, forall(n, 1, 11, implies(n == 4 && vshape(o, n, x), dec(o, n) == x))))
+//@ lemma varint_roundtrip_5 uses dec_zero, dec_down: forall_slice(byte, o, forall(uint64, x, 0, inf, forall(n, 1, 11, implies(n == 5 && vshape(o, n, x), dec(o, n) == x))))
+//@ lemma varint_roundtrip_6 uses dec_zero, dec_down: forall_slice(byte, o, forall(uint64, x, 0, inf, forall(n, 1, 11, implies(n == 6 && vshape(o, n, x), dec(o, n) == x))))
+//@ lemma varint_roundtrip_7 uses dec_zero, dec_down: forall_slice(byte, o, forall(uint64, x, 0, inf, forall(n, 1, 11, implies(n == 7 && vshape(o, n, x), dec(o, n) == x))))
+//@ lemma varint_roundtrip_8 uses dec_zero, dec_down: forall_slice(byte, o, forall(uint64, x, 0, inf, forall(n, 1, 11, implies(n == 8 && vshape(o, n, x), dec(o, n) == x))))
+//@ lemma varint_roundtrip_9 uses dec_zero, dec_down: forall_slice(byte, o, forall(uint64, x, 0, inf, forall(n, 1, 11, implies(n == 9 && vshape(o, n, x), dec(o, n) == x))))
+//@ lemma varint_roundtrip_10 uses dec_zero, dec_down: forall_slice(byte, o, forall(uint64, x, 0, inf, forall(n, 1, 11, implies(n == 10 && vshape(o, n, x), dec(o, n) == x))))
+
+// writeVarInt hands exactly the encoding of `number` to binary.Write and reports its length
+//@ func writeVarInt
+//@   loop 1 unroll 10
+//@   assert before call encoding/binary.Write#1: enc: vshape(buf[10-bytesWritten:], bytesWritten, old(number))
+
+// readVarInt decodes what it read: result = dec(bytes read), it reads up to and including the first
+// byte without continuation bit, and reports how many bytes it consumed
+//@ func readVarInt(r) (result, bytes, err)
+//@   use dec_zero, dec_step, dec_frame
+//@   ensures implies(isnil(err), bytes == ncalls("invoke.ReadByte") && bytes >= 1 && result == dec(calllog("invoke.ReadByte", 0), bytes))
+//@   ensures implies(isnil(err), calllog("invoke.ReadByte", 0)[bytes-1] < 0x80 && forall(k, 0, bytes-1, calllog("invoke.ReadByte", 0)[k] >= 0x80))
+//@   ensures onlyioerr: implies(!isnil(err), ncalls("invoke.ReadByte") >= 1 && err == calllog("invoke.ReadByte", 1)[ncalls("invoke.ReadByte")-1])
+//@   loop 1 invariant bytes == ncalls("invoke.ReadByte") && 0 <= bytes
+//@   loop 1 invariant result == dec(calllog("invoke.ReadByte", 0), bytes)
+//@   loop 1 invariant forall(k, 0, bytes, calllog("invoke.ReadByte", 0)[k] >= 0x80)
